@@ -604,9 +604,74 @@ def _fix_cfg(cfg, rng):
 
 
 # ----------------------------------------------------------------------------------------------
+# configuration: get_layer / get_activation / get_loss / check_loss / check_output
+# ----------------------------------------------------------------------------------------------
+LAYER_NAMES = ['conv', 'Conv', 'CONV', 'sage', 'Sage', 'GraphSage', 'sageconv', 'SAGEConv', 'gcnconv', 'convolution',
+               'xx', '', 'gat', 'con v']
+ACT_NAMES = ['Relu', 'relu', 'ReLu', 'RELU', 'sigmoid', 'Sigmoid', 'softmax', 'Softmax', 'identity', 'Identity', '',
+             'tanh', 'soft max']
+LOSS_NAMES = [None, None, 'CrossEntropy', 'crossentropy', 'CE', 'ce', 'Cross Entropy', 'cross entropy',
+              'BinaryCrossEntropy', 'BCE', 'bce', 'binary cross entropy', 'Binary CrossEntropy', 'mse', '']
+NORM_NAMES = ['left', 'Left', 'RIGHT', 'right', 'both', 'Both', 'none', 'None', 'sym', '']
+
+
+def _q(t):
+    return "''" if t == '' else t.replace(' ', '~')
+
+
+def resolve_cases(ctx, layer, activation, loss, normalization, se, c):
+    from sknetwork.gnn.layer import get_layer
+    from sknetwork.gnn.utils import check_loss
+
+    def f():
+        kw = dict(out_channels=c, activation=activation, normalization=normalization, self_embeddings=se)
+        if loss is not None:
+            kw['loss'] = loss
+        lay = get_layer(layer, **kw)
+        k = '_'
+        if loss is not None:
+            k = LOSS_TOK[type(check_loss(lay)).__name__]
+        eff = {'BaseActivation': 'identity', 'ReLu': 'relu', 'Sigmoid': 'sigmoid', 'Softmax': 'softmax',
+               'CrossEntropy': 'softmax', 'BinaryCrossEntropy': 'sigmoid'}[type(lay.activation).__name__]
+        norm = lay.normalization if lay.normalization in ('left', 'right', 'both') else 'none'
+        return 'ok %s %s %s %s' % (norm, '1' if lay.self_embeddings else '0', eff, k)
+    impl = call(f)
+    run = 'c19.resolve %s %s %s %s %s %d' % (_q(layer), _q(activation), '_' if loss is None else _q(loss),
+                                            _q(normalization), '1' if se else '0', c)
+    desc = {'kind': 'resolve', 'layer': layer, 'activation': activation, 'loss': loss, 'normalization': normalization,
+            'self_embeddings': se, 'out_channels': c}
+    ctx.count('resolve')
+    return [Case(('resolve', layer, activation, loss, normalization, se, c), {'entry': 'get_layer'}, run, impl, None,
+                 impl.startswith('ok'), desc, canon='exact')]
+
+
+def check_output_cases(ctx, c, labels):
+    from sknetwork.gnn.utils import check_output
+    impl = call(lambda: (check_output(c, np.array(labels, dtype=int)), 'ok')[1])
+    desc = {'kind': 'check_output', 'channels': c, 'labels': labels}
+    return [Case(('check_output', c, tuple(labels)), {'entry': 'check_output'}, 'c19.check_output %d %s' % (c, enc_list(labels)),
+                 impl, None, True, desc, canon='exact')]
+
+
+def stream_config(ctx, quick, scale=1.0):
+    rng = ctx.rng
+    cases = []
+    for _ in range(int((150 if quick else 1500) * scale)):
+        cases += resolve_cases(ctx, rng.choice(LAYER_NAMES), rng.choice(ACT_NAMES), rng.choice(LOSS_NAMES),
+                               rng.choice(NORM_NAMES), rng.random() < 0.5, rng.randint(1, 3))
+    for _ in range(int((40 if quick else 400) * scale)):
+        c = rng.randint(1, 4)
+        labels = [rng.randrange(rng.randint(1, 5)) for _ in range(rng.randint(1, 6))]
+        cases += check_output_cases(ctx, c, labels)
+    return cases
+
+
+# ----------------------------------------------------------------------------------------------
 # comparison of answers
 # ----------------------------------------------------------------------------------------------
 def _same(c, model, impl, spec_ok):
+    if c.canon == 'exact':
+        return False
     if model.startswith('err') or impl.startswith('err'):
         if c.canon == 'predict':
             return False
@@ -655,7 +720,7 @@ def stream_forward(ctx, quick, scale=1.0):
         cases += forward_grid(ctx, a, rng, full=False, afmts=SPARSE_FMTS)
         ctx.count('graphs:n3-loops')
     # structured random graphs
-    for name, n, es, w in graphs.suite(rng, int((60 if quick else 600) * scale), 3, 10):
+    for name, n, es, w in graphs.suite(rng, int((150 if quick else 1500) * scale), 3, 10):
         mode = rng.choice(['ones', 'int', 'dyadic', 'real'])
         if name.rstrip('0123456789') in graphs.UNDIRECTED_KINDS:
             ww = graphs.sym_weights(rng, es, rand_weights(rng, 6, mode))
@@ -692,14 +757,14 @@ def stream_forward(ctx, quick, scale=1.0):
 def stream_activation_loss(ctx, quick, scale=1.0):
     rng = ctx.rng
     cases = []
-    for _ in range(int((120 if quick else 1500) * scale)):
+    for _ in range(int((300 if quick else 4000) * scale)):
         n, c = rng.randint(1, 5), rng.randint(1, 5)
         mode = rng.choice(['normal', 'normal', 'int', 'dyadic', 'large'])
         S = rand_signal(rng, n, c, mode)
         D = rand_matrix(rng, n, c, rng.choice(['normal', 'int']))
         act = rng.choice(ACTS + ['CrossEntropy', 'BinaryCrossEntropy'])
         cases += activation_cases(ctx, act, S, D)
-    for _ in range(int((160 if quick else 2000) * scale)):
+    for _ in range(int((400 if quick else 5000) * scale)):
         loss = rng.choice(['CrossEntropy', 'BinaryCrossEntropy'])
         n = rng.randint(1, 5)
         c = rng.choice([1, 2, 3, 4, 5]) if loss == 'BinaryCrossEntropy' else rng.choice([2, 3, 4, 5])
@@ -717,7 +782,7 @@ def stream_activation_loss(ctx, quick, scale=1.0):
 def stream_predict(ctx, quick, scale=1.0):
     rng = ctx.rng
     cases = []
-    for _ in range(int((80 if quick else 800) * scale)):
+    for _ in range(int((150 if quick else 2000) * scale)):
         n, c = rng.randint(1, 6), rng.randint(1, 5)
         mode = rng.choice(['ties', 'normal', 'prob'])
         if mode == 'ties':
@@ -734,7 +799,7 @@ def stream_predict(ctx, quick, scale=1.0):
 def stream_sampler(ctx, quick, scale=1.0):
     rng = ctx.rng
     cases = []
-    for _ in range(int((70 if quick else 700) * scale)):
+    for _ in range(int((150 if quick else 2000) * scale)):
         n = rng.randint(1, 7)
         es = graphs.random_edges(rng, n, rng.choice([0.2, 0.5, 0.8]), loops=True)
         a = mk_adj(n, es, rand_weights(rng, len(es), rng.choice(['ones', 'int', 'real'])))
@@ -749,7 +814,7 @@ def stream_sampler(ctx, quick, scale=1.0):
 def stream_classifier(ctx, quick, scale=1.0):
     rng = ctx.rng
     cases = []
-    for name, n, es, w in graphs.suite(rng, int((36 if quick else 300) * scale), 3, 9, kinds=graphs.UNDIRECTED_KINDS + ['dicycle', 'sinks']):
+    for name, n, es, w in graphs.suite(rng, int((80 if quick else 900) * scale), 3, 9, kinds=graphs.UNDIRECTED_KINDS + ['dicycle', 'sinks']):
         a = mk_adj(n, es, rand_weights(rng, len(es), rng.choice(['ones', 'int'])) if name.rstrip('0123456789') not in graphs.UNDIRECTED_KINDS
                    else graphs.sym_weights(rng, es, [1.0, 2.0, 1.0]))
         c = rng.choice([1, 2, 2, 3])
@@ -811,6 +876,10 @@ def cases_of_desc(ctx, d):
         a = sparse.csr_matrix((np.array(d['data'], dtype=float), np.array(d['indices'], dtype=int), np.array(d['indptr'], dtype=int)),
                               shape=tuple(d['shape']))
         return sampler_cases(ctx, a, d['sample_size'], d['seed'])
+    if kind == 'resolve':
+        return resolve_cases(ctx, d['layer'], d['activation'], d['loss'], d['normalization'], d['self_embeddings'], d['out_channels'])
+    if kind == 'check_output':
+        return check_output_cases(ctx, d['channels'], d['labels'])
     if kind == 'classifier':
         a = sparse.csr_matrix(np.array(d['adjacency'], dtype=float))
         labels = d['labels'] if isinstance(d['labels'], list) else {int(k): v for k, v in d['labels'].items()}
@@ -826,14 +895,19 @@ def build_cases(ctx, scale=1.0):
     cases += stream_predict(ctx, quick, scale)
     cases += stream_sampler(ctx, quick, scale)
     cases += stream_classifier(ctx, quick, scale)
+    cases += stream_config(ctx, quick, scale)
     return cases
 
 
 def run(ctx):
+    import time
+    t0 = time.time()
     with warnings.catch_warnings():
         warnings.simplefilter('ignore')
         cases = build_cases(ctx)
+        t1 = time.time()
         evaluate(ctx, cases)
+    ctx.extra['timing_s'] = {'implementation_calls': round(t1 - t0, 1), 'lean_driver_and_compare': round(time.time() - t1, 1)}
     ctx.extra['tolerance'] = {'float64_relative': TOL, 'finite_differences_search_only': FD_TOL}
     ctx.exhaustive = False
 
@@ -857,6 +931,7 @@ def search(ctx, pending):
         cases += stream_predict(sub, True, 2.0)
         cases += stream_sampler(sub, True, 2.0)
         cases += stream_classifier(sub, True, 1.0)
+        cases += stream_config(sub, True, 1.0)
         evaluate(sub, cases)
     return sub.found()
 
